@@ -191,7 +191,7 @@ Print Assumptions C12_state_example.
    assign the provided parameters; reset EVERY population variable to the mode of its prior under the NEW parameters
    (unconditionally); read the derived values to compare.  A fit = what the iterations did to the State (any transformer)
    followed by the end-of-fit script. *)
-From Leaspy Require Import Io.History Io.HistoryProofs Compose.StateHistory Compose.StateHistoryProofs Compose.HistoryExamples.
+From Leaspy Require Import Io.History Io.HistoryExec Io.HistoryProofs Compose.StateHistory Compose.StateHistoryProofs Compose.HistoryExamples.
 
 (** Tie: the statements of StatefulModel.load_parameters regenerated from the source are the model's — in particular the
     reset of the population variables is NOT guarded (a guard is expressible: LpIfPopsUnset, and is another script). *)
